@@ -183,14 +183,46 @@ impl GraphEngine {
 
     /// Creates a B-Tree index for the given label and property.
     ///
-    /// If the index already exists, this is a no-op.
-    /// Note: This MVP does not backfill existing data. The index will only track
-    /// valid data inserted *after* index creation.
+    /// If the index already exists, this is a no-op. Existing nodes that were created with
+    /// the label and carry the property are indexed (backfill). Index creation is a writer:
+    /// it fails while a write transaction or a compaction is in progress.
     pub fn create_index(&self, label: &str, field: &str) -> Result<()> {
+        let name = format!("{}.{}", label, field);
+        {
+            #[cfg(nervusdb_verif)]
+            let _vh0 = crate::verif::acquire("index_catalog");
+            if self.index_catalog.lock().unwrap().get(&name).is_some() {
+                return Ok(());
+            }
+        }
+
+        // Exclude writers so that no commit falls between the backfill and the registration.
+        let Ok(_guard) = self.write_lock.try_lock() else {
+            return Err(Error::WalProtocol(
+                "create_index: a write transaction is in progress",
+            ));
+        };
+        #[cfg(nervusdb_verif)]
+        let _vhw = crate::verif::acquire("write_lock");
+
+        // Read the existing values first: property reads take the pager lock themselves.
+        let mut existing = Vec::new();
+        let label_id = self.label_interner.lock().unwrap().get_id(label);
+        if let Some(label_id) = label_id {
+            use crate::read_path_convert::convert_property_to_storage as to_storage;
+            let snapshot = self.snapshot();
+            for iid in snapshot.nodes() {
+                if snapshot.node_label(iid) == Some(label_id)
+                    && let Some(value) = snapshot.node_property(iid, field)
+                {
+                    existing.push((iid, to_storage(value)));
+                }
+            }
+        }
+
         #[cfg(nervusdb_verif)]
         let _vh1 = crate::verif::acquire("index_catalog");
         let mut catalog = self.index_catalog.lock().unwrap();
-        let name = format!("{}.{}", label, field);
         if catalog.get(&name).is_some() {
             return Ok(());
         }
@@ -198,7 +230,17 @@ impl GraphEngine {
         #[cfg(nervusdb_verif)]
         let _vh2 = crate::verif::acquire("pager.w");
         let mut pager = self.pager.write().unwrap();
-        catalog.get_or_create(&mut pager, &name)?;
+        let def = catalog.get_or_create(&mut pager, &name)?;
+        if !existing.is_empty() {
+            let mut tree = BTree::load(def.root);
+            for (iid, value) in existing {
+                let key = encode_index_key(def.id, &value, iid as u64);
+                tree.insert(&mut pager, &key, iid as u64)?;
+            }
+            if let Some(entry) = catalog.entries.get_mut(&name) {
+                entry.root = tree.root();
+            }
+        }
         catalog.flush(&mut pager)?;
         Ok(())
     }
